@@ -1,3 +1,61 @@
-import Gp.Model.Asm
+import Gp.Lemmas.AsmSeq
+import Gp.Lemmas.AsmPool
+/-
+  C10 — tcpassembly: TCP bytes delivered in order, exactly once, gaps announced.
+
+  Model: `Gp/Model/Asm.lean` (transcription of tcpassembly/assembly.go, parametric in the sequence
+  arithmetic; `wrapArith` = the definitions regenerated from the source into `Gp/Gen/SeqAsm.lean`).
+  Property theorems only; helper lemmas live in `Gp/Lemmas/Asm*.lean`.
+-/
 namespace Gp.C10
+open Gp Gp.Asm Gp.Gen
+
+/-! ## 1. Sequence arithmetic (regenerated from assembly.go on every run) -/
+
+/-- `Sequence.Difference` is the true distance for every pair of sequence numbers less than 2^30
+    apart, wherever they lie in the 32-bit space (in particular across the wrap). -/
+theorem asm_seq_diff_correct (s k : Int) (hs : 0 ≤ s) (hs' : s < 4294967296)
+    (hk : -1073741824 < k) (hk' : k < 1073741824) :
+    SeqAsm.difference s ((s + k) % 4294967296) = k :=
+  difference_correct s k hs hs' hk hk'
+
+example : SeqAsm.difference 4294967295 0 = 1 := by decide
+example : SeqAsm.difference 0 4294967295 = -1 := by decide
+example : SeqAsm.difference 4294967000 ((4294967000 + 5000) % 4294967296) = 5000 := by decide
+
+/-- `Sequence.Add` is addition modulo 2^32 (result again a sequence number). -/
+theorem asm_seq_add_mod (s n : Int) :
+    SeqAsm.add s n = (s + n) % 4294967296 ∧ 0 ≤ SeqAsm.add s n ∧ SeqAsm.add s n < 4294967296 :=
+  add_mod s n
+
+/-! ## 2. The `panic("wtf")` guard of insertIntoConn is unreachable -/
+
+/-- a segment as AssembleWithTimestamp can receive it: `t.Seq` is a uint32 -/
+def WfOp : Op → Prop
+  | .seg s => 0 ≤ s.seq ∧ s.seq < 4294967296
+  | _ => True
+
+/-- For EVERY history of Assemble / Flush* / FlushAll / option changes (any segments whatsoever, any
+    number of connections) the model of the real code never reaches `panic("wtf")` (nor any other
+    panic): every history runs to completion. -/
+theorem asm_no_wtf (ops : List Op) (hwf : ∀ op ∈ ops, WfOp op) :
+    ∃ x, run wrapArith {} ops = .ok x := by
+  have hA : ∀ x, wrapArith.diff x x ≤ 0 := fun x => by
+    show SeqAsm.difference x x ≤ 0
+    rw [difference_self]; exact Int.le_refl 0
+  obtain ⟨x, hx, _⟩ := run_preserves (noWtf_connInv wrapArith hA) {} ops (poolAll_empty _) (by
+    intro op hop
+    have := hwf op hop
+    cases op with
+    | seg s =>
+      simp only [WfOp] at this
+      simp only [OpPre, invalidSeq, SeqAsm.invalidSequence]
+      omega
+    | _ => trivial)
+  exact ⟨x, hx⟩
+
+/-- the guard is not vacuous: a state with the first page at nextSeq does panic -/
+example : insertIntoConn wrapArith {} ⟨5, [⟨5, ⟨[], 0, false, false, 0⟩⟩], 1, 0, 0⟩ 1 9 [1] false 0
+    = .panic .explicit := by decide
+
 end Gp.C10
